@@ -14,12 +14,16 @@ fn recipe_of(case: &Case, calls: Vec<Call>) -> Recipe {
     Recipe { cols: case.cols, rows: case.rows, limit: case.limit, calls }
 }
 
-/// K2 signature (semantic, on replicas), exactly the exception the property names:
-/// (a) origin mode is on and the cursor is parked outside the scroll region — the cursor row
-/// is outside the interval of rows that absolute addressing can reach — and (b) the saved
-/// cursor context disagrees with the current modes: restoring it (CSI u, which is how
-/// dump() repositions in this state) changes origin mode or auto-wrap.
-/// With (a) but not (b) dump() is expected to work and a failure is reported.
+/// K2 signature (semantic, on replicas): (a) origin mode is on and the cursor is parked
+/// outside the scroll region — the cursor row is outside the interval of rows that
+/// absolute addressing can reach — and (b) restoring the saved cursor context (CSI u,
+/// which is how dump() repositions in this state) leaves origin mode or auto-wrap OFF.
+/// dump() executes that step in a terminal it has just put into origin mode with
+/// auto-wrap still on, re-prints the last column afterwards when the cursor is
+/// wrap-pending, and only then switches auto-wrap off if needed; a saved context with
+/// either mode off breaks that (it "disagrees with the current modes" the dump relies
+/// on). With (a) and a saved context that has both modes on, dump() is expected to work
+/// and a failure is reported (unless it is K3).
 pub fn k2_signature(r: &Recipe) -> bool {
     let mut v = r.build();
     let _ = v.feed_str("\x18");
@@ -31,9 +35,41 @@ pub fn k2_signature(r: &Recipe) -> bool {
     if !(row < r1 || row > r2) {
         return false;
     }
-    // the pen is re-established by dump() after the repositioning, so only the two modes count
-    let (now, restored) = (modes_readout(r, "\x18"), modes_readout(r, "\x18\x1b[u"));
-    (now.1, now.2) != (restored.1, restored.2)
+    let restored = modes_readout(r, "\x18\x1b[u");
+    !(restored.1 && restored.2)
+}
+
+/// K3 signature (semantic, on replicas): origin mode is on, the cursor is parked outside
+/// the scroll region, and the way dump() repositions in that state — restore the saved
+/// cursor (CSI u), then CUB/CUF and CUU/CUD by the distance to the target — cannot reach the
+/// cursor's position, because a vertical move that starts inside the region stops at its
+/// margin (the saved position lies in the region or on its other side).
+pub fn k3_signature(r: &Recipe) -> bool {
+    let mut v = r.build();
+    let (cols, _) = v.size();
+    let _ = v.feed_str("\x18");
+    let target = (v.cursor().col.min(cols - 1), v.cursor().row);
+    let _ = v.feed_str("\x1b[1;1H");
+    let r1 = v.cursor().row;
+    let _ = v.feed_str("\x1b[9999;1H");
+    let r2 = v.cursor().row;
+    if !(target.1 < r1 || target.1 > r2) {
+        return false;
+    }
+    let mut w = r.build();
+    let _ = w.feed_str("\x18\x1b[u");
+    let (sc, sr) = (w.cursor().col.min(cols - 1), w.cursor().row);
+    if target.0 < sc {
+        let _ = w.feed_str(&format!("\x1b[{}D", sc - target.0));
+    } else if target.0 > sc {
+        let _ = w.feed_str(&format!("\x1b[{}C", target.0 - sc));
+    }
+    if target.1 < sr {
+        let _ = w.feed_str(&format!("\x1b[{}A", sr - target.1));
+    } else if target.1 > sr {
+        let _ = w.feed_str(&format!("\x1b[{}B", target.1 - sr));
+    }
+    (w.cursor().col.min(cols - 1), w.cursor().row) != target
 }
 
 /// behavioural read-out of (pen, auto-wrap, origin mode) after `prefix`
@@ -211,6 +247,10 @@ fn judge_one(case: &Case, calls: Vec<Call>, tail: &[String], tally: &mut Tally) 
                 tally.known_hits.push("K2".into());
                 return Verdict::Pass;
             }
+            if tolerated("K3") && k3_signature(&orig_r) {
+                tally.known_hits.push("K3".into());
+                return Verdict::Pass;
+            }
             Verdict::fail(sig, format!("{}; dump = {:?}", msg, crate::case::clip(&dump, 300)))
         }
     }
@@ -301,6 +341,45 @@ pub fn gen_case(src: &mut Src, _i: usize) -> Case {
     case
 }
 
+/// the neighbourhood of K2/K3 at random: origin mode, a region, saves inside and outside
+/// it, restores after the margins moved, wrap-pending cursors, auto-wrap toggles,
+/// width-only resizes (they keep the region and can push the cursor across a margin)
+pub fn gen_origin_outside(src: &mut Src, _i: usize) -> Case {
+    let cols = src.range(1, 8);
+    let rows = src.range(3, 7);
+    let mut case = Case::new(cols, rows, None);
+    let mut s = String::from("ab\r\ncdefgh\r\ni\x1b[?6h");
+    let pool: [&str; 22] = [
+        "\x1b7", "\x1b8", "\x1b[s", "\x1b[u", "\x1b[?7l", "\x1b[?7h", "\x1b[?6h", "\x1b[A", "\x1b[B", "\x1b[C", "\x1b[D", "\x1b[9A", "\x1b[9B",
+        "\x1b[1m", "\x1b[m", "x", "\x1b[999Gx", "\x1b[4h", "\x1b[?1048h", "\x1b[?1048l", "\r", "\x1b[2;1H",
+    ];
+    let n = src.range(2, 10);
+    let mut cur_cols = cols;
+    for _ in 0..n {
+        match src.below(8) {
+            0 | 1 => {
+                let t = src.range(1, rows - 1);
+                let b = src.range(t + 1, rows);
+                s.push_str(&format!("\x1b[{};{}r", t, b));
+            }
+            2 => {
+                s.push_str(&format!("\x1b[{};{}H", src.range(1, rows), src.range(1, cur_cols)));
+            }
+            3 => {
+                if !s.is_empty() {
+                    case.calls.push(Call::FeedStr(std::mem::take(&mut s)));
+                }
+                cur_cols = src.range(1, 9);
+                case.calls.push(Call::Resize(cur_cols, rows));
+            }
+            _ => s.push_str(*src.pick(&pool)),
+        }
+    }
+    case.calls.push(Call::FeedStr(s));
+    case.tail = vec!["Z\x1b[2;2HY\x1b8X".into()];
+    case
+}
+
 pub fn gen_short_all_cuts(src: &mut Src, _i: usize) -> Case {
     let (cols, rows) = gen::small_size(src);
     let g = G::new(cols, rows);
@@ -388,6 +467,7 @@ pub fn run(env: &Env) -> PropRun {
     parts.push(run_part(env, "enum-origin-outside-region", eo.len(), true, "6x5: every scroll region x every saved row outside it x 3 columns x 3 set-ups before the save (plain, pen, auto-wrap off) x 13 relative moves after the restore x 7 follow-ups (saved auto-wrap off + current on is the listed exception K2)", &|i| eo.get(i).cloned(), &j));
     let ec = enum_components();
     parts.push(run_part(env, "enum-components", ec.len(), true, "2 sizes x (all ordered pairs of 20 hidden-state setters, the second cut at every position) + (20 setters x 22 partial sequences covering every non-ground parser state x 2 completions)", &|i| ec.get(i).cloned(), &j));
+    parts.push(random_part(env, "origin-outside-random", env.tier.scale(30_000, 30), &gen_origin_outside, &j));
     parts.push(random_part(env, "short-every-cut", env.tier.scale(6_000, 30), &gen_short_all_cuts, &j));
     parts.push(random_part(env, "random-histories", env.tier.scale(40_000, 40), &gen_case, &j));
     PropRun {
@@ -396,7 +476,8 @@ pub fn run(env: &Env) -> PropRun {
             rule: "orig = terminal after the history; restored = fresh terminal of the same size fed orig.dump(). They must be observationally equivalent: same visible cells, pens, soft-wrap marks, cursor, visibility, cursor-key mode; equal after every element of ~25 chained probe sequences exposing parser state, pen, charsets, insert, auto-wrap, LNM, tab stops, margins, origin, both saved contexts, both screens; equal after the generated continuation (whose first element completes a cut sequence). Histories <= 60 chars are additionally cut at every position. Non-trivial = the history sets >= 2 hidden components.".into(),
             assumptions: vec![
                 "K1: a dump taken while the alternate screen shows after a resize during that same excursion is excluded and counted while listed as open in known_findings.json; once the excursion has ended the history is judged normally".into(),
-                "K2: failures in states with origin mode on, the cursor outside the scroll region AND a saved context whose auto-wrap/origin mode differ from the current ones (read behaviourally on replicas) are counted, not reported, while listed as open; the same cursor state with an agreeing saved context is judged normally".into(),
+                "K2: failures in states with origin mode on, the cursor outside the scroll region AND a saved context that has auto-wrap or origin mode off (read behaviourally on a replica after CSI u) are counted, not reported, while listed as open; the same cursor state with a saved context that has both modes on is judged normally".into(),
+                "K3: failures in states with origin mode on, the cursor outside the scroll region AND a saved cursor position from which CUB/CUF + CUU/CUD by the distance cannot reach the cursor (a margin is in the way; simulated on a replica) are counted, not reported, while listed as open".into(),
             ],
             not_compared: vec!["scrollback (not part of the dump)".into(), "the text of dump() itself".into()],
         },
